@@ -9,7 +9,7 @@ Oracle (real code only): the unit-mode result converted to the expected unit equ
 does not raise (dimension of the named quantity); a warning is emitted iff the temperature (mass fraction) is outside the
 documented range embedded HERE (REF_RANGES); inverse helpers invert; anchors of the repository's tests hold.
 """
-import math, struct, warnings, types
+import json, math, struct, warnings, types
 from fractions import Fraction
 from lib.framework import Property
 from .util import *
@@ -29,6 +29,7 @@ DIM_ORDER = ['length', 'mass', 'time', 'current', 'temperature', 'luminous_inten
 ION_KEYS = ["H+", "Li+", "Na+", "K+", "Rb+", "Cs+", "NH4+", "Mg+2", "Ca+2", "Ba+2", "Fe+2", "Co+2", "Ni+2", "Cu+2", "Mn+2", "Zn+2",
             "Cd+2", "Al+3", "Fe+3", "Cr+3", "OH-", "F-", "Cl-", "Br-", "I-", "NO3-", "ClO4-", "IO4-", "HCO3-", "HSO3-", "H2PO4-",
             "S2O3-2", "HPO4-2", "CO3-2", "SO3-2", "SO4-2", "PO4-3"]
+ERRS = [-2.0, -1.0, -0.5, 0.0, 0.5, 1.0, 2.0]      # multiples of the reported uncertainties (err_mult)
 GAS_KEYS = ["O2", "CO2", "N2O", "C2H2", "C2H4", "He", "Ne", "Ar", "Kr", "Xe", "Rn", "H2", "N2", "NO", "C2H6"]
 
 # order of the unit symbols in the generated unit-mode functions (first use in the source)
@@ -44,6 +45,12 @@ UATTRS = {
 }
 PLAIN_OP = {'water_density': 'water_density', 'water_viscosity': 'water_viscosity', 'water_diffusivity': 'water_diffusivity',
             'water_permittivity': 'water_permittivity', 'sulfuric_acid_density': 'sulfuric_acid_density'}
+
+
+class UnitsNS(object):
+    """a units object with the documented attributes (hashable by identity, like a module or chempy's default_units)"""
+    def __init__(self, **kw):
+        self.__dict__.update(kw)
 
 
 def f2b(x):
@@ -91,6 +98,7 @@ class C19(Property):
 
     def __init__(self):
         self._u = None
+        self._hist = {}
 
     # ---- units ------------------------------------------------------------------------------------------
     def U(self):
@@ -113,7 +121,7 @@ class C19(Property):
             alt = dict(Kelvin=pq.K, kelvin=pq.K, meter=pq.cm, metre=pq.cm, kilogram=pq.g, second=pq.ms, centipoise=pq.poise,
                        bar=pq.kPa, molar=du.mol / du.m ** 3, mol=pq.mmol, coulomb=pq.mC, joule=kJ)
             alt_mK = dict(alt, Kelvin=mK, kelvin=mK)
-            usys = {'default': du, 'alt': types.SimpleNamespace(**alt), 'alt_mK': types.SimpleNamespace(**alt_mK)}
+            usys = {'default': du, 'alt': UnitsNS(**alt), 'alt_mK': UnitsNS(**alt_mK)}
             self._u = dict(pq=pq, du=du, dc=dc, units=units, usys=usys)
         return self._u
 
@@ -143,14 +151,25 @@ class C19(Property):
         modes = ['plain', 'u1', 'u2']
         usys = ['default', 'alt', 'alt_mK']
 
-        def tunit(us, fn=None, mode=None):
+        def tunit(us, fn=None, mode=None, T=None):
             own = 'mK' if us == 'alt_mK' else 'K'
+            if T is not None and fn in REF_RANGES and any(abs(T - b) < 1e-9 for b in REF_RANGES[fn]):
+                return own           # exactly on a bound: the unit conversion of the input itself rounds across it
             if rng.random() < 0.15:      # a temperature unit different from the units object's kelvin (repaired: fix commits 4b50fb2, adff9e0)
                 return rng.choice([x for x in ('K', 'mK', 'degR', 'kK') if x != own])
             return own
 
         def add(c):
             cases.append(c)
+
+        add({'fn': 'anchors', 'mode': 'anchor'})
+        for us_ in usys:        # call histories: the value of a call must not depend on earlier calls (err_mult perturbs LOCAL copies only)
+            steps = []
+            for _ in range(rng.randint(3, 6)):
+                steps.append({'T': g6(rng.uniform(273.15, 373.15)), 'err': rng.choice([None, [rng.choice(ERRS), rng.choice(ERRS)]])})
+            steps.insert(1, {'T': 298.15, 'err': [1.0, 1.0]})
+            steps.append({'T': 298.15, 'err': None})
+            add({'fn': 'water_diffusivity', 'mode': 'history', 'usys': us_, 'steps': steps})
 
         # --- the four water correlations and sulfuric acid on grids, all modes ---
         for fn in ('water_density', 'water_viscosity', 'water_diffusivity', 'water_permittivity', 'sulfuric_acid_density'):
@@ -161,9 +180,11 @@ class C19(Property):
                         c['P'] = g6(rng.choice([1.0, 1.01325, 1000.0, rng.uniform(1, 1999), rng.uniform(2001, 6000)]))
                     if fn == 'sulfuric_acid_density':
                         c['w'] = g6(rng.choice([0.1, 0.9, rng.uniform(0.05, 0.95), rng.uniform(0.1, 0.9)]))
+                    if fn == 'water_diffusivity' and rng.random() < 0.3:
+                        c['err'] = [rng.choice(ERRS), rng.choice(ERRS)]
                     if mode != 'plain':
                         c['usys'] = rng.choice(usys)
-                        c['T_unit'] = tunit(c['usys'], fn, mode)
+                        c['T_unit'] = tunit(c['usys'], fn, mode, T)
                         if 'P' in c:
                             c['P_unit'] = rng.choice(['bar', 'Pa', 'kPa', 'atm', 'MPa'])
                     add(c)
@@ -189,22 +210,27 @@ class C19(Property):
                     c['P'] = lu(1, 6000)
                 if fn == 'sulfuric_acid_density':
                     c['w'] = g6(rng.uniform(0.05, 0.95))
+                if fn == 'water_diffusivity' and rng.random() < 0.4:
+                    c['err'] = [rng.choice(ERRS), rng.choice(ERRS)]
                 if mode != 'plain':
-                    c['usys'], c['T_unit'] = us, tunit(us, fn, mode)
+                    c['usys'], c['T_unit'] = us, tunit(us, fn, mode, c['T'])
                     if 'P' in c:
                         c['P_unit'] = rng.choice(['bar', 'Pa', 'kPa', 'atm', 'MPa'])
                 add(c)
             elif r == 1:     # Henry
                 fn = rng.choice(['henry_call', 'henry_get_c', 'henry_get_p'])
                 c = {'fn': fn, 'mode': mode if mode != 'u2' or fn == 'henry_call' else 'u1', 'T': g6(rng.uniform(273.15, 373.15)),
-                     'Hcp': lu(1e-6, 1e-1), 'Tderiv': g6(rng.uniform(-500, 4000)), 'Tref': None if rng.random() < 0.6 else g6(rng.uniform(273.15, 310)),
+                     'Hcp': lu(1e-6, 1e-1), 'Tderiv': g6(rng.uniform(-500, 4000)), 'Tref': rng.choice([None, None, 298.15, 293.15, 273.15, g6(rng.uniform(273.15, 310))]),
+                     'ref': rng.choice([None, None, 'sander_2015', 'carpenter_1966']),
                      'x': lu(1e-4, 10)}
                 if c['mode'] != 'plain':
                     c['usys'], c['T_unit'] = us, tunit(us, fn, c['mode'])
                     c['H_unit'] = rng.choice(['M/atm', 'mol/m3/Pa'])
                     c['x_unit'] = rng.choice(['bar', 'Pa', 'atm', 'kPa']) if fn == 'henry_get_c' else rng.choice(['M', 'mM', 'uM'])
-                    if c['mode'] == 'u2':
-                        c['Tref'] = None
+                    c['cls'] = rng.choice(['Henry', 'HenryWithUnits'])
+                    c['implicit_units'] = rng.random() < 0.5
+                    c['T0_unit'] = rng.choice([None, None, 'K', 'mK', 'degR'])
+                    c['Td_unit'] = rng.choice([None, None, 'K', 'mK', 'kK'])
                 add(c)
             elif r == 2:     # Nernst
                 z = rng.choice([-3, -2, -1, 1, 2, 3])
@@ -268,6 +294,30 @@ class C19(Property):
             return self._q(c['T'], c['T_unit'])           # malformed stream
         return self._q(c['T'] * self.unit_info(uo.Kelvin)[0] / f, c['T_unit'])
 
+    def _tempq(self, x, unit_name, c, uo):
+        """the temperature(-difference) whose magnitude in `uo.Kelvin` is x, expressed in the temperature unit `unit_name`"""
+        if unit_name is None or unit_name == self._own(c):
+            return x * uo.Kelvin
+        return self._q(x * self.unit_info(uo.Kelvin)[0] / self.unit_info(self.U()['units'][unit_name])[0], unit_name)
+
+    def _henry(self, c, uo):
+        """(object, keyword arguments of its calls, H, Tderiv, T0 as passed to the constructor)"""
+        from chempy.henry import Henry, HenryWithUnits
+        U = self.U()
+        kwc = {} if c.get('ref') is None else {'ref': c['ref']}
+        if uo is None:
+            H, Td, T0 = c['Hcp'], c['Tderiv'], c['Tref']
+            return Henry(H, Td, T0, **kwc), {}, H, Td, T0
+        hf = self.unit_info(U['units'][c['H_unit']])[0] / self.unit_info(U['units']['M/atm'])[0]
+        H = self._q(c['Hcp'] / hf, c['H_unit'])                      # Hcp is the constant in M/atm
+        Td = self._tempq(c['Tderiv'], c.get('Td_unit'), c, uo)       # magnitudes in the unit `uo.Kelvin`
+        T0 = None if c['Tref'] is None else self._tempq(c['Tref'], c.get('T0_unit'), c, uo)
+        if c.get('cls') == 'HenryWithUnits':
+            # its __call__ defaults to chempy's default_units: the units object is left implicit when it is that one
+            kw = {} if (c['usys'] == 'default' and c.get('implicit_units')) else {'units': uo}
+            return HenryWithUnits(H, Td, T0, **kwc), kw, H, Td, T0
+        return Henry(H, Td, T0, **kwc), {'units': uo}, H, Td, T0
+
     def _uv(self, q):
         """JSON of a python value for the L2 ops: number -> bits, quantity -> [mag bits, factor bits, dims]"""
         if hasattr(q, 'dimensionality'):
@@ -287,6 +337,9 @@ class C19(Property):
             from chempy.properties.water_viscosity_korson_1969 import water_viscosity
             from chempy.properties.water_diffusivity_holz_2000 import water_self_diffusion_coefficient
             f = {'water_density': water_density, 'water_viscosity': water_viscosity, 'water_diffusivity': water_self_diffusion_coefficient}[fn]
+            if fn == 'water_diffusivity' and c.get('err') is not None:
+                e = c['err']
+                return (lambda: f(T, units=uo, err_mult=(e[0], e[1]))), [T, e[0], e[1]], uo
             return (lambda: f(T, units=uo)), [T], uo
         if fn == 'water_permittivity':
             from chempy.properties.water_permittivity_bradley_pitzer_1979 import water_permittivity
@@ -300,17 +353,7 @@ class C19(Property):
             from chempy.properties.sulfuric_acid_density_myhre_1998 import sulfuric_acid_density
             return (lambda: sulfuric_acid_density(c['w'], T, units=uo)), [c['w'], T], uo
         if fn.startswith('henry'):
-            from chempy.henry import Henry
-            if unitful:
-                # Hcp is the constant in M/atm, Tderiv / T0 in kelvin
-                hf = self.unit_info(U['units'][c['H_unit']])[0] / self.unit_info(U['units']['M/atm'])[0]
-                H = self._q(c['Hcp'] / hf, c['H_unit'])
-                Td = c['Tderiv'] * uo.Kelvin               # magnitudes in the unit `uo.Kelvin`
-                T0 = None if c['Tref'] is None else c['Tref'] * uo.Kelvin
-            else:
-                H, Td, T0 = c['Hcp'], c['Tderiv'], c['Tref']
-            h = Henry(H, Td, T0)
-            kw = {'units': uo} if unitful else {}
+            h, kw, H, Td, T0 = self._henry(c, uo)
             if fn == 'henry_call':
                 return (lambda: h(T, **kw)), [T, H, Td, T0], uo
             if unitful:
@@ -363,7 +406,7 @@ class C19(Property):
     # ---- model cases ---------------------------------------------------------------------------------------------
     def model_case(self, c):
         fn, mode = c['fn'], c['mode']
-        if mode == 'oracle_units':
+        if mode in ('oracle_units', 'anchor', 'history'):
             return None
         mc = dict(c)
         if mode == 'rat':
@@ -393,7 +436,10 @@ class C19(Property):
         if mode == 'plain':
             if fn in PLAIN_OP:
                 a = [c['w'], c['T']] if fn == 'sulfuric_acid_density' else [c['T']] + ([c['P']] if 'P' in c else [])
-                mc.update(op=fn, a=[f2b(x) for x in a])
+                if c.get('err') is not None:
+                    mc.update(op='water_diffusivity_err', a=[f2b(x) for x in a + list(c['err'])])
+                else:
+                    mc.update(op=fn, a=[f2b(x) for x in a])
             elif fn.startswith('henry'):
                 a = [c['T'], c['Hcp'], c['Tderiv']] + ([c['x']] if fn != 'henry_call' else [])
                 mc.update(op=fn, a=[f2b(x) for x in a], T0=None if c['Tref'] is None else f2b(c['Tref']))
@@ -439,12 +485,16 @@ class C19(Property):
                 mc.update(op='mobility_c', a=[f2b(si(x)) for x in args] + [f2b(si(dc.Boltzmann_constant)), f2b(si(dc.elementary_charge))])
                 return mc
             ufs = [self.unit_info(getattr(uo, a))[0] for a in UATTRS[fn]]
-            mc.update(op=fn + '_u1', a=[f2b(si(x)) for x in args] + [f2b(x) for x in ufs])
+            op = 'water_diffusivity_err_u1' if c.get('err') is not None else fn + '_u1'
+            mc.update(op=op, a=[f2b(si(x)) for x in args] + [f2b(x) for x in ufs])
             return mc
         # u2
         if fn == 'henry_call':
             T, H, Td, T0 = args
-            mc.update(op='henry_default_u2', a=[self._uv(T), self._uv(H), self._uv(Td), self._uv(1 * uo.Kelvin)])
+            if T0 is None:
+                mc.update(op='henry_default_u2', a=[self._uv(T), self._uv(H), self._uv(Td), self._uv(1 * uo.Kelvin)])
+            else:
+                mc.update(op='henry_t0_u2', a=[self._uv(T), self._uv(H), self._uv(Td), self._uv(T0), self._uv(1 * uo.Kelvin)])
             return mc
         if fn == 'nernst' and c['constants']:
             dc = U['dc']
@@ -454,7 +504,8 @@ class C19(Property):
             dc = U['dc']
             mc.update(op='mobility_c2', a=[self._uv(x) for x in args] + [self._uv(1 * dc.Boltzmann_constant), self._uv(1 * dc.elementary_charge)])
             return mc
-        mc.update(op=fn + '_u2', a=[self._uv(x) for x in args] + [self._uv(1 * getattr(uo, a)) for a in UATTRS[fn]])
+        op = 'water_diffusivity_err_u2' if c.get('err') is not None else fn + '_u2'
+        mc.update(op=op, a=[self._uv(x) for x in args] + [self._uv(1 * getattr(uo, a)) for a in UATTRS[fn]])
         return mc
 
     # ---- real code in the canonical form of the driver -------------------------------------------------------------
@@ -627,6 +678,14 @@ class C19(Property):
     def oracle(self, c):
         fn, mode = c['fn'], c['mode']
         U = self.U()
+        if mode == 'anchor':
+            return self._oracle_anchors()
+        if mode == 'history':
+            # the first verdict is kept: on a tree with hidden state a second evaluation in the same process starts from the polluted state
+            k = json.dumps(c, sort_keys=True)
+            if k not in self._hist:
+                self._hist[k] = self._oracle_history(c)
+            return self._hist[k]
         if fn == 'lg_solubility_ratio':
             return self._oracle_lg(c)
         if fn == 'density_from_concentration':
@@ -667,6 +726,20 @@ class C19(Property):
         want = float(p[1])
         if not close(got, want, self.float_tol):
             return '%s with units (%s, args %s): %r %s, plain mode %r' % (fn, c['usys'], [str(a) for a in args], got, eu.dimensionality, want)
+        if fn.startswith('henry'):
+            # at the instance's reference temperature the tabulated constant itself is returned (T0 default 298.15 K or as constructed)
+            h, kw, H, Td, T0 = self._henry(c, uo)
+            Tq = T0 if T0 is not None else 298.15 * uo.Kelvin
+            r0 = self._run(lambda: h(Tq, **kw))
+            if r0[0] == 'exc':
+                return '%s object at its reference temperature %s raised %s' % (c.get('cls', 'Henry'), Tq, r0[1])
+            try:
+                g0 = float(to_unitless(r0[1], self.U()['units']['M/atm']))
+            except Exception as e:
+                return 'Henry constant %r does not have the dimension of Hcp' % (r0[1],)
+            if not close(g0, c['Hcp'], self.float_tol):
+                return '%s(Hcp=%s, Tderiv=%s, T0=%s) at its reference temperature gives %r M/atm, tabulated Hcp %r' % (
+                    c.get('cls', 'Henry'), H, Td, T0, g0, c['Hcp'])
         if fn in REF_RANGES and not self._near_boundary(c) and sorted(r[2]) != sorted(p[2]):
             return '%s: warnings with units %r, plain %r' % (fn, r[2], p[2])
         return None
@@ -757,8 +830,119 @@ class C19(Property):
                 c['conc'], c['T'], rho, w, back, atol)
         return None
 
+    def _oracle_history(self, c):
+        """a sequence of unit-mode calls with ONE units object: every call must give the plain-number value of the same arguments"""
+        from chempy.properties.water_diffusivity_holz_2000 import water_self_diffusion_coefficient as wsd
+        from chempy.units import to_unitless
+        uo = self.U()['usys'][c['usys']]
+        eu = uo.meter ** 2 / uo.second
+        for i, st in enumerate(c['steps']):
+            kw = {} if st['err'] is None else {'err_mult': tuple(st['err'])}
+            p = self._run(lambda: wsd(st['T'], **kw))
+            r = self._run(lambda: wsd(st['T'] * uo.Kelvin, units=uo, **kw))
+            if p[0] == 'exc' or r[0] == 'exc':
+                return 'call %d of the history %r raised (plain %r, units %r)' % (i, c['steps'], p[1], r[1])
+            try:
+                got = float(to_unitless(r[1], eu))
+            except Exception as e:
+                return 'call %d of the history: result %r is not a diffusion coefficient' % (i, r[1])
+            if not close(got, float(p[1]), self.float_tol):
+                return ('call %d of the history %r with units (%s): water_self_diffusion_coefficient(%r, err_mult=%r) = %r, plain mode %r '
+                        '(the value depends on the earlier calls)' % (i, c['steps'][:i], c['usys'], st['T'], st['err'], got, float(p[1])))
+        return None
+
+    def _oracle_anchors(self):
+        """values printed in the repository's own tests / docstrings (tables of the papers), warnings are errors inside the ranges"""
+        from chempy.properties.water_density_tanaka_2001 import water_density
+        from chempy.properties.water_viscosity_korson_1969 import water_viscosity
+        from chempy.properties.water_diffusivity_holz_2000 import water_self_diffusion_coefficient as wsd
+        from chempy.properties.water_permittivity_bradley_pitzer_1979 import water_permittivity
+        from chempy.properties.sulfuric_acid_density_myhre_1998 import sulfuric_acid_density, density_from_concentration
+        from chempy.henry import Henry
+        from chempy.electrochemistry.nernst import nernst_potential
+        from chempy.einstein_smoluchowski import electrical_mobility_from_D
+        dens = [(0, 999.8395, 0.004), (4, 999.9720, 0.003), (10, 999.7026, 0.0003), (15, 999.1026, 0.0001), (20, 998.2071, 0.0005),
+                (22, 997.7735, 0.0007), (25, 997.0479, 0.0009), (30, 995.6502, 0.0016), (40, 992.2, 0.02)]
+        visc = [(0, 1.7916), (5, 1.5192), (10, 1.3069), (15, 1.1382), (20, 1.0020), (25, 0.8903), (30, 0.7975), (35, 0.7195), (40, 0.6532),
+                (45, 0.5963), (50, 0.5471), (55, 0.5042), (60, 0.4666), (65, 0.4334), (70, 0.4039), (75, 0.3775), (80, 0.3538), (85, 0.3323),
+                (90, 0.3128), (95, 0.2949), (100, 0.2783)]
+        diff = [(0, 1.099e-9, 0.027e-9), (4, 1.261e-9, 0.011e-9), (10, 1.525e-9, 0.007e-9), (15, 1.765e-9, 0.006e-9), (20, 2.023e-9, 0.001e-9),
+                (25, 2.299e-9, 0.001e-9), (30, 2.594e-9, 0.001e-9), (35, 2.907e-9, 0.004e-9)]
+        bad = []
+        with warnings.catch_warnings():
+            warnings.simplefilter('error', UserWarning)
+            try:
+                for t, v, tol in dens:
+                    if not abs(water_density(273.15 + t) - v) < tol:
+                        bad.append('water_density(%g degC) = %r, table %r' % (t, water_density(273.15 + t), v))
+                for t, v in visc:
+                    tol = 2e-3 if t == 100 else 6e-4 if t == 95 else 5e-4
+                    if not abs(water_viscosity(273.15 + t) - v) < tol:
+                        bad.append('water_viscosity(%g degC) = %r, table %r' % (t, water_viscosity(273.15 + t), v))
+                for t, v, tol in diff:
+                    if not abs(wsd(273.15 + t) - v) < tol:
+                        bad.append('water_self_diffusion_coefficient(%g degC) = %r, table %r' % (t, wsd(273.15 + t), v))
+                for t, v, tol in [(20, 80.1, 0.2), (100, 55.3, 0.5), (25, 78.38436874203077, 1e-8)]:   # test_water_permittivity (the 0 degC line there, 80 +- 1, does not hold and is not asserted)
+                    if not abs(water_permittivity(273.15 + t, 1) - v) < tol:
+                        bad.append('water_permittivity(%g degC) = %r, expected %r' % (t, water_permittivity(273.15 + t, 1), v))
+                if '%.2f' % water_density(277.13) != '999.97':
+                    bad.append('docstring: water_density(277.13)')
+                if '%d' % sulfuric_acid_density(.5, 293) != '1396' or not abs(1063.8 - sulfuric_acid_density(0.1, 298)) < 0.1:
+                    bad.append('sulfuric_acid_density anchors')
+                if '%d' % density_from_concentration(400, 293) != '1021' or not abs(1058.5 - density_from_concentration(1000)) < 0.1:
+                    bad.append('density_from_concentration anchors')
+                h = Henry(1.2e-3, 1800)
+                if not (abs(h(298.15) - 1.2e-3) < 1e-12 and abs(h.get_c_at_T_and_P(290, 1) - 0.001421892) < 1e-8
+                        and abs(h.get_P_at_T_and_c(310, 1e-3) - 1.05) < 1e-3):
+                    bad.append('Henry anchors')
+                for a, want in [((145, 15, 1, 310), 60.605), ((4, 150, 1, 310), -96.8196), ((2, 7e-5, 2, 310), 137.0436), ((110, 10, -1, 310), -64.0567)]:
+                    if not abs(1000 * nernst_potential(*a) - want) < 1e-4:
+                        bad.append('nernst_potential%r = %r mV, textbook %r' % (a, 1000 * nernst_potential(*a), want))
+                ref = -2 * 1.60217657e-19 * 3 / 1.3806488e-23 / 100
+                if not abs(electrical_mobility_from_D(3, -2, 100) - ref) <= 1e-5 * abs(ref):
+                    bad.append('electrical_mobility_from_D anchor')
+                # the published formulas with the published coefficients, written out here independently of the source
+                # (Tanaka 2001 eq. 1 / Table 1; Korson 1969 eq. 5; Holz 2000 eq. 1; Bradley & Pitzer 1979 Table I; Myhre 1998: pinned values)
+                for T in (273.15, 277.13, 285.0, 298.15, 313.15):
+                    t = T - 273.15
+                    ref = 999.974950 * (1 - (t - 3.983035) ** 2 * (t + 301.797) / (522528.9 * (t + 69.34881)))
+                    if not close(water_density(T), ref, 1e-12):
+                        bad.append('water_density(%r) = %r, Tanaka formula %r' % (T, water_density(T), ref))
+                for T in (273.15, 293.15, 300.0, 333.15, 373.15):
+                    t = T - 273.15
+                    ref = 1.0020 * 10 ** ((1.1709 * (20 - t) - 0.001827 * (t - 20) ** 2) / (t + 89.93))
+                    if not close(water_viscosity(T), ref, 1e-12):
+                        bad.append('water_viscosity(%r) = %r, Korson formula %r' % (T, water_viscosity(T), ref))
+                for T in (273.15, 298.15, 330.0, 373.15):
+                    ref = 1.635e-8 * (T / 215.05 - 1) ** 2.063
+                    if not close(wsd(T), ref, 1e-12):
+                        bad.append('water_self_diffusion_coefficient(%r) = %r, Holz formula %r' % (T, wsd(T), ref))
+                Uc = (3.4279e2, -5.0866e-3, 9.4690e-7, -2.0525, 3.1159e3, -1.8289e2, -8.0325e3, 4.2142e6, 2.1417)
+                for T, Pb in ((273.15, 1.0), (298.15, 1.0), (343.15, 1500.0), (500.0, 800.0), (623.15, 1999.0)):
+                    B = Uc[6] + Uc[7] / T + Uc[8] * T
+                    ref = Uc[0] * math.exp(Uc[1] * T + Uc[2] * T * T) + (Uc[3] + Uc[4] / (Uc[5] + T)) * math.log((B + Pb) / (B + 1000.0))
+                    if not close(water_permittivity(T, Pb), ref, 1e-12):
+                        bad.append('water_permittivity(%r, %r) = %r, Bradley-Pitzer formula %r' % (T, Pb, water_permittivity(T, Pb), ref))
+                for w, T, ref in ((0.1, 273.15, 1073.3191493868799), (0.3, 283.15, 1225.5658926335814), (0.5, 293.15, 1395.9236664874945),
+                                  (0.7, 303.15, 1610.9077539287246), (0.9, 323.15, 1904.4226931401354)):
+                    if not close(sulfuric_acid_density(w, T), ref, 1e-11):
+                        bad.append('sulfuric_acid_density(%r, %r) = %r, pinned value of the Myhre table %r' % (w, T, float(sulfuric_acid_density(w, T)), ref))
+            except UserWarning as e:
+                bad.append('range warning inside the validity range: %s' % e)
+        return '; '.join(bad) if bad else None
+
     def classify(self, c):
+        if c['mode'] == 'anchor':
+            return 'anchors'
         s = '%s:%s' % (c['fn'], c['mode'])
+        if c['mode'] == 'history':
+            return s
+        if c.get('err') is not None:
+            s += ':err_mult'
+        if c['fn'].startswith('henry'):
+            s += ':T0=' + ('default' if c['Tref'] is None else '298.15' if c['Tref'] == 298.15 else 'other')
+            if c.get('cls'):
+                s += ':' + c['cls']
         if 'usys' in c:
             s += ':' + c['usys']
         if self.is_foreign(c):
